@@ -358,4 +358,160 @@ theorem impl_eq_rfc_header_partial (n : Nat) (b : List Nat) (hb : BytesOk b)
                       rw [if_neg hcid]
                       rfl
 
+/-- every decoded packet consumes at least one byte and leaves a suffix of the input:
+    progress of the coalesced-packet loop -/
+theorem header_decode_consumes (n : Nat) (b : List Nat) (p : Packet) (rest : List Nat) (hb : BytesOk b)
+    (h : decodePacket n b = .ok (p, rest)) :
+    ∃ k, 0 < k ∧ k ≤ b.length ∧ rest = b.drop k := by
+  rcases decodePacket_ok_inv n b p rest hb h with
+    ⟨first, t, hbdef, _, _, _, _, _, hrest⟩ | ⟨first, v0, v1, v2, v3, r1, d, r2, s, r3, hbdef, _, _, h1, h2, hok⟩
+  · refine ⟨b.length, ?_, Nat.le_refl _, ?_⟩
+    · rw [hbdef]; simp
+    · rw [hrest, List.drop_length]
+  · obtain ⟨k, hk, hr3, hkeq⟩ := cids_suffix hbdef h1 h2
+    rcases longOk_length hb hk (by omega) hr3 hok with ⟨hrest, _⟩ | ⟨lenOff, hl, pl, h7, hlt, hle, hpl, hrest, _, _⟩
+    · refine ⟨b.length, by omega, Nat.le_refl _, ?_⟩
+      rw [hrest, List.drop_length]
+    · exact ⟨pl, by omega, hpl, hrest⟩
+
+/-- the loop over the coalesced packets of a datagram terminates on every input: the fuel
+    `b.length + 1` of `decodeAll` is never exhausted -/
+theorem decodeAll_terminates (n : Nat) (b : List Nat) (hb : BytesOk b) : (decodeAll n b).isSome = true := by
+  have key : ∀ fuel (b : List Nat), BytesOk b → b.length < fuel → (decodeAllFuel n fuel b).isSome = true := by
+    intro fuel
+    induction fuel with
+    | zero => intro b _ h; omega
+    | succ fuel ih =>
+      intro b hb hlen
+      unfold decodeAllFuel
+      by_cases he : b.isEmpty = true
+      · rw [if_pos he]; rfl
+      · rw [if_neg he]
+        cases hd : decodePacket n b with
+        | error e => rfl
+        | ok x =>
+          obtain ⟨p, rest⟩ := x
+          obtain ⟨k, hk0, hkb, hrest⟩ := header_decode_consumes n b p rest hb hd
+          have hr : rest.length < fuel := by rw [hrest, List.length_drop]; omega
+          have := ih rest (by rw [hrest]; exact bytesOk_drop hb k) hr
+          simp only []
+          cases hw : decodeAllFuel n fuel rest with
+          | none => rw [hw] at this; simp at this
+          | some w => rfl
+  exact key (b.length + 1) b hb (Nat.lt_succ_self _)
+
+/-- RFC 9000 §17.2 "MUST NOT exceed 20 bytes … MUST drop": every accepted packet other than an
+    Initial has connection IDs of at most 20 bytes — for EVERY version, at decode time.
+
+    Full-strength statement (FALSE of the code for Initial packets, see
+    `cid_len_le_20_initial_counterexample`; the endpoint applies the bound to Initial packets
+    after version negotiation: `cid_len_le_20_after_endpoint_check`):
+      `decodePacket n b = .ok (p, rest) → p.dcid.length ≤ 20 ∧ ∀ s, p.scid? = some s → s.length ≤ 20`. -/
+theorem cid_len_le_20_enforced_partial (n : Nat) (b : List Nat) (p : Packet) (rest : List Nat) (hb : BytesOk b)
+    (h : decodePacket n b = .ok (p, rest)) (hni : ∀ v d s t hl pl, p ≠ .initial v d s t hl pl) :
+    p.dcid.length ≤ 20 ∧ ∀ s, p.scid? = some s → s.length ≤ 20 := by
+  rcases decodePacket_ok_inv n b p rest hb h with
+    ⟨first, t, hbdef, _, _, hn, hn20, hp, _⟩ | ⟨first, v0, v1, v2, v3, r1, d, r2, s, r3, hbdef, _, _, h1, h2, hok⟩
+  · rw [hp]
+    simp only [Packet.dcid, Packet.scid?, List.length_take]
+    exact ⟨by omega, fun _ h => by simp at h⟩
+  · cases hok with
+    | vn _ hd hs => exact ⟨hd, fun s' h => by simp only [Packet.scid?, Option.some.injEq] at h; rw [← h]; exact hs⟩
+    | initial tl r4 tok r5 off len next => exact absurd rfl (hni _ _ _ _ _ _)
+    | zeroRtt off len next _ _ hd hs => exact ⟨hd, fun s' h => by simp only [Packet.scid?, Option.some.injEq] at h; rw [← h]; exact hs⟩
+    | handshake off len next _ _ hd hs => exact ⟨hd, fun s' h => by simp only [Packet.scid?, Option.some.injEq] at h; rw [← h]; exact hs⟩
+    | retry _ _ hd hs => exact ⟨hd, fun s' h => by simp only [Packet.scid?, Option.some.injEq] at h; rw [← h]; exact hs⟩
+
+/-- after the check the endpoint applies to every decoded packet (`endpointCidCheck`) the bound
+    holds for all packet types -/
+theorem cid_len_le_20_after_endpoint_check (n : Nat) (b : List Nat) (p : Packet) (rest : List Nat)
+    (h : endpointCidCheck (decodePacket n b) = .ok (p, rest)) :
+    p.dcid.length ≤ 20 ∧ ∀ s, p.scid? = some s → s.length ≤ 20 := by
+  unfold endpointCidCheck at h
+  cases hd : decodePacket n b with
+  | error e => rw [hd] at h; simp at h
+  | ok x =>
+    obtain ⟨q, r⟩ := x
+    rw [hd] at h
+    simp only [] at h
+    by_cases h1 : q.dcid.length > maxDcidLen
+    · rw [if_pos h1] at h; simp at h
+    · rw [if_neg h1] at h
+      unfold maxDcidLen at h1
+      cases hs : q.scid? with
+      | none =>
+        rw [hs] at h
+        simp only [Except.ok.injEq, Prod.mk.injEq] at h
+        rw [← h.1]
+        exact ⟨by omega, fun s h' => by rw [hs] at h'; simp at h'⟩
+      | some s =>
+        rw [hs] at h
+        simp only [] at h
+        by_cases h2 : s.length > maxScidLen
+        · rw [if_pos h2] at h; simp at h
+        · rw [if_neg h2] at h
+          unfold maxScidLen at h2
+          simp only [Except.ok.injEq, Prod.mk.injEq] at h
+          rw [← h.1]
+          exact ⟨by omega, fun s' h' => by rw [hs] at h'; simp only [Option.some.injEq] at h'; rw [← h']; omega⟩
+
+/-- the declared Length is exactly the number of packet-number + payload bytes the packet occupies:
+    the Length varint (starting at some `lenOff`) ends at `headerLen` (the packet-number offset),
+    its value is `packetLen - headerLen`, the packet ends at `packetLen ≤ |b|`, and the next
+    coalesced packet starts right there -/
+theorem long_header_len_exact (n : Nat) (b : List Nat) (p : Packet) (rest : List Nat) (hb : BytesOk b)
+    (h : decodePacket n b = .ok (p, rest)) (v : Nat) (d s : List Nat) (hl pl : Nat)
+    (hp : (∃ tok, p = .initial v d s tok hl pl) ∨ p = .zeroRtt v d s hl pl ∨ p = .handshake v d s hl pl) :
+    ∃ lenOff, lenOff < hl ∧ hl ≤ pl ∧ pl ≤ b.length ∧
+      Codec.VarInt.decode (b.drop lenOff) = some (pl - hl, b.drop hl) ∧ rest = b.drop pl := by
+  rcases decodePacket_ok_inv n b p rest hb h with
+    ⟨first, t, _, _, _, _, _, hps, _⟩ | ⟨first, v0, v1, v2, v3, r1, d', r2, s', r3, hbdef, _, _, h1, h2, hok⟩
+  · rcases hp with ⟨tok, hp⟩ | hp | hp <;> rw [hp] at hps <;> simp at hps
+  · obtain ⟨k, hk, hr3, hkeq⟩ := cids_suffix hbdef h1 h2
+    rcases longOk_length hb hk (by omega) hr3 hok with ⟨_, hvr⟩ | ⟨lenOff, hl', pl', h7, hlt, hle, hpl, hrest, hdec, hshape⟩
+    · rcases hvr with ⟨_, _, _, _, hq⟩ | ⟨_, _, _, _, _, _, hq⟩ <;>
+        rcases hp with ⟨tok, hp⟩ | hp | hp <;> rw [hp] at hq <;> simp at hq
+    · have heq : hl' = hl ∧ pl' = pl := by
+        rcases hshape with ⟨tok', hq⟩ | hq | hq <;> rcases hp with ⟨tok, hp⟩ | hp | hp <;>
+          rw [hp] at hq <;> simp at hq <;> omega
+      obtain ⟨e1, e2⟩ := heq
+      subst e1; subst e2
+      exact ⟨lenOff, hlt, hle, hpl, hdec, hrest⟩
+
+/-- a long-header packet whose Version field is 0 is a Version Negotiation packet whatever its type
+    bits say: it never has token / Length / packet-number fields — everything after the two
+    connection IDs is the version list, and it consumes the entire datagram -/
+theorem vn_never_has_payload_fields (n : Nat) (b : List Nat) (p : Packet) (rest : List Nat) (hb : BytesOk b)
+    (hv : versionField b = some 0) (h : decodePacket n b = .ok (p, rest)) :
+    ∃ tag d s sup, p = .versionNegotiation tag d s sup ∧ rest = [] ∧ b.head? = some tag ∧
+      sup = b.drop (5 + (1 + d.length) + (1 + s.length)) ∧
+      5 + (1 + d.length) + (1 + s.length) + sup.length = b.length ∧ 4 ≤ sup.length ∧ sup.length % 4 = 0 := by
+  rcases decodePacket_ok_inv n b p rest hb h with
+    ⟨first, t, hbdef, hform, _, _, _, _, _⟩ | ⟨first, v0, v1, v2, v3, r1, d, r2, s, r3, hbdef, hform, _, h1, h2, hok⟩
+  · exfalso
+    rw [hbdef] at hv
+    match t, hv with
+    | [], hv => simp [versionField] at hv
+    | [_], hv => simp [versionField] at hv
+    | [_, _], hv => simp [versionField] at hv
+    | [_, _, _], hv => simp [versionField] at hv
+    | _ :: _ :: _ :: _ :: _, hv =>
+      simp only [versionField] at hv
+      rw [if_neg (by omega)] at hv
+      simp at hv
+  · have hV : ((v0 * 256 + v1) * 256 + v2) * 256 + v3 = 0 := by
+      rw [hbdef] at hv
+      simp only [versionField] at hv
+      rw [if_pos hform] at hv
+      simpa using hv
+    obtain ⟨k, hk, hr3, hkeq⟩ := cids_suffix hbdef h1 h2
+    cases hok with
+    | vn _ hd hs h4 hm =>
+      refine ⟨first, d, s, r3, rfl, rfl, by rw [hbdef]; rfl, by rw [hr3, hkeq], ?_, h4, hm⟩
+      rw [hr3, List.length_drop]; omega
+    | initial tl r4 tok r5 off len next hne => exact absurd hV hne
+    | zeroRtt off len next hne => exact absurd hV hne
+    | handshake off len next hne => exact absurd hV hne
+    | retry hne => exact absurd hV hne
+
 end Quic.Proofs.C05
